@@ -41,6 +41,10 @@ def run(repo: Repo, rep: Report):
 
 _S = "svg"
 VARIANTS = [
+    Variant("<use> of a target inside a display:none container is not instantiated",
+            [Edit(_S, "SVG._resolve_use", "                new_el = copy.deepcopy(target)\n",
+                  "                new_el = copy.deepcopy(target)\n                if target.getparent() is not None and target.getparent().attrib.get(\"display\") == \"none\":\n                    new_el = etree.Element(f\"{{{svgns()}}}g\")\n")],
+            [("R-SITE.compose-order", "_resolve_use")]),
     Variant("operands swapped in _resolve_use", [Edit(_S, "SVG._resolve_use", "                            affine,\n                            Affine2D.fromstring(use_el.attrib[\"transform\"]),\n",
                                                         "                            Affine2D.fromstring(use_el.attrib[\"transform\"]),\n                            affine,\n")],
             [("R-SITE.compose-order", "_resolve_use")]),
